@@ -403,6 +403,29 @@ def _run(case, out, rig, variant, ping):
             rig.sched.spawn("sender%d" % ti, make_sender(ti, prog))
 
     problems = []
+    if case.get("earlier_connection"):
+        # the stack has been through a connection before (logged in, then the peer closed it): the senders of this case run into
+        # the reconnect.  What reaches the new socket is the new connection's stream from its first byte on
+        probs = rig.login()
+        if probs or rig.server.state != "transport":
+            out.fail("stream", "stream:earlier_login_incomplete", {"problems": [str(p)[:200] for p in probs], "state": rig.server.state})
+            return out
+        if variant == "proto":
+            rig.server.send_frame(R.encode(("success", {"creation": "1", "props": "2", "t": "3", "location": "x"}, None)))
+            probs = rig.shuttle()
+        if rig.current is not None and rig.current.up:
+            rig.current.inbox.put(("close",))
+        rig.run()
+        # the main thread delivers the deferred 'disconnected' announcement before anything else happens (a send that races with
+        # the loss of its connection is lost with it: that is not what this case is about)
+        for _ in range(4):
+            if rig.detached_pending() == 0:
+                break
+            rig.post("loop")
+            rig.run()
+        rig.take_client_bytes()
+        rig.server.reset()       # (the server's side of the new connection starts from scratch, as a real one does)
+        out.label("after_an_earlier_connection")
     rig.post("connect")
     if variant == "bare":
         from yowsup.layers import YowLayerEvent
@@ -540,6 +563,9 @@ def case_strategy(tier):
         }
         if tier != "quick":
             case["trace_lines"] = draw(st.booleans())
+        if case["variant"] != "bare" and draw(st.integers(0, 3)) == 0:
+            case["earlier_connection"] = True
+            case["start_round"] = draw(st.sampled_from([0, 0, 1, 2]))
         if n == 0:
             # context-bounded schedule: the running task continues except at up to four preemption points
             case["preempt"] = draw(st.lists(st.tuples(st.integers(0, 700), st.integers(0, 4)).map(list), min_size=1, max_size=4))
@@ -566,6 +592,19 @@ def _enum_login_preemption_sweep():
         steps = (probe.info or {}).get("steps", 300)
         for i in range(steps + 1):
             for sel in (0, 1, 2, 3):      # net thread, two senders, handshake worker: any of the others takes over
+                yield dict(base, preempt=[[i, sel]])
+
+
+def _enum_reconnect_preemption_sweep():
+    """a reconnect (the stack was logged in before, the peer closed the connection) into which two senders run: every single
+    preemption point from the connect request to the end of the new login"""
+    for variant in ("core",):
+        base = {"sub": "senders", "variant": variant, "tasks": [[["iq", 1]], [["receipt", 1]]], "ping": False, "start_round": 0,
+                "choices": [], "earlier_connection": True}
+        probe = run_case(dict(base))
+        steps = (probe.info or {}).get("steps", 400)
+        for i in range(steps + 1):
+            for sel in (0, 1, 2, 3):
                 yield dict(base, preempt=[[i, sel]])
 
 
@@ -651,7 +690,8 @@ def plan(tier):
     return {
         "shards": 16,
         "enumerations": [("basic", _enum_basic), ("login_preemption_sweep", _enum_login_preemption_sweep),
-                         ("first_send_line_sweep", _enum_first_send_line_sweep), ("dispatcher_writes_basic", _enum_dispatcher_writes),
+                         ("first_send_line_sweep", _enum_first_send_line_sweep), ("reconnect_preemption_sweep", _enum_reconnect_preemption_sweep),
+                         ("dispatcher_writes_basic", _enum_dispatcher_writes),
                          ("dispatcher_race_sweep", _enum_dispatcher_race), ("reconnect_writes_basic", _enum_reconnect_writes)],
         "exhaustive": ["login_preemption_sweep", "first_send_line_sweep"],
         "strategies": [("schedules", case_strategy(tier), 150 if quick else 10000),
